@@ -8,3 +8,15 @@ package stdio
 // either an error or a usable pipe (trusted: constructors live in the pipe packages).
 //@ func CreatePipe [C26] trusted
 //@   ensures imp(result1 == nil, result != nil)
+
+// ---- C15: which array reader a stream gets ---------------------------------------------------------------
+// The reader registered for the stream's own data type is used when there is one; only otherwise the
+// reader registered for the generic type - never the reader of some other type.
+//@ func ReadArrayWithType [C15]
+//@   check none
+//@   at call dynamic:fnReadArray#1 assert callee == readArrayWithType[dt] && arg1 == read
+//@   at call dynamic:readArrayWithType[]#1 assert readArrayWithType[dt] == nil && callee == readArrayWithType[types.Generic] && arg1 == read
+//@ func ReadArray [C15]
+//@   check none
+//@   at call dynamic:fnReadArray#1 assert callee == readArray[dt] && arg1 == read
+//@   at call dynamic:readArray[]#1 assert readArray[dt] == nil && callee == readArray[types.Generic] && arg1 == read
